@@ -217,7 +217,7 @@ CLASSES = ["All", "Any", "AtLeast", "AtLeastS", "AtMost", "Xor", "ExactlyOne", "
 
 class TreeGen:
     def __init__(self, rng, n_leaves=4, max_depth=3, int_p=0.3, wide_p=0.05, classes=None, explicit_p=0.5,
-                 bool_only=False, max_arity=4, prefix_p=0.0, str_p=0.3):
+                 bool_only=False, max_arity=4, prefix_p=0.0, str_p=0.3, share=True):
         self.rng = rng
         self.max_depth = max_depth
         self.classes = classes or CLASSES
@@ -225,6 +225,7 @@ class TreeGen:
         self.max_arity = max_arity
         self.prefix_p = prefix_p
         self.str_p = str_p
+        self.share = share
         self.k = 0
         self.memo = {}
         self.pool = []
@@ -259,7 +260,7 @@ class TreeGen:
         # reuse an earlier sub-tree: same object, or a structurally identical copy
         if self.pool and rng.random() < 0.15:
             a = rng.choice(self.pool)
-            if rng.random() < 0.35:
+            if rng.random() < 0.35 or not self.share:
                 a = self.recopy(a)
             return a
         kind = rng.choice(self.classes)
